@@ -603,6 +603,16 @@ func (p *sessionPort) exec(f []string) []string {
 				return p.startCall(tag, func(q <-chan struct{}) error { return cl.SubscribeLimitAtLeastOnce(q, fs...) })
 			}
 			return p.startCall(tag, func(q <-chan struct{}) error { return cl.Subscribe(q, fs...) })
+		case "subhuge", "unsubhuge": // call <tag> subhuge <n> <len>: n filters of len bytes each (one shared string)
+			one := strings.Repeat("a", atoi(f[4]))
+			fs := make([]string, atoi(f[3]))
+			for i := range fs {
+				fs[i] = one
+			}
+			if f[2] == "subhuge" {
+				return p.startCall(tag, func(q <-chan struct{}) error { return cl.Subscribe(q, fs...) })
+			}
+			return p.startCall(tag, func(q <-chan struct{}) error { return cl.Unsubscribe(q, fs...) })
 		case "unsub":
 			fs := parseFilterList(f[3])
 			return p.startCall(tag, func(q <-chan struct{}) error { return cl.Unsubscribe(q, fs...) })
